@@ -598,11 +598,23 @@ def run(c):
     from .. import build
     stride = int(os.environ.get("VERIF_FSWEEP_STRIDE", "1021" if c.quick else "7"))
     c.need("float sweep")
-    try:
-        p = subprocess.run([build.harness("rel"), "fsweep", str(stride), str(c.seed % stride), "16"], stdout=subprocess.PIPE, stderr=subprocess.DEVNULL, timeout=7200)
-        out = p.stdout.decode("utf-8", "replace")
-    except subprocess.TimeoutExpired:
-        out = ""
+    out = ""
+    sweeps = [(stride, "1")] if c.quick else [(stride, "1"), (1, "0")]   # thorough: ALL 2^32 f32 bit patterns through the f32 list functions
+    for st_, f64flag in sweeps:
+        try:
+            p = subprocess.run([build.harness("rel"), "fsweep", str(st_), str(c.seed % st_), "16", "64", f64flag], stdout=subprocess.PIPE, stderr=subprocess.DEVNULL, timeout=7200)
+            o1 = p.stdout.decode("utf-8", "replace")
+        except subprocess.TimeoutExpired:
+            o1 = ""
+        m1 = re.search(r"FSWEEP values=(\d+) mismatches=(\d+)", o1)
+        if not m1:
+            c.inconc("float sweep (stride %d) did not finish" % st_)
+        elif st_ == 1:
+            c.ev(int(m1.group(1)))
+            c.extra["float_sweep_f32_exhaustive"] = {"values": int(m1.group(1)), "exhaustive": True}
+            out += "\n".join(l for l in o1.splitlines() if l.startswith("FMISMATCH")) + "\n"
+        else:
+            out += o1
     m = re.search(r"FSWEEP values=(\d+) mismatches=(\d+)", out)
     if not m:
         c.inconc("float sweep did not finish")
